@@ -1224,6 +1224,11 @@ func ValueTupleExpr(query *Query, current Map, expr *sqlparser.ValTuple, opts ..
 				return nil, err
 			}
 		}
+		// literals and arithmetic results are still wrapped at this point
+		value, err = ValueOf(query, current, value)
+		if err != nil {
+			return nil, err
+		}
 		slice = append(slice, value)
 	}
 	return slice, nil
